@@ -107,7 +107,18 @@ def cases(seed, tier):
                     prof['keys'] = {}
                     mix = 'gss-only'
                 prof['kex'].insert(r2.randrange(len(prof['kex']) + 1), gen.gss_name(r2, force_chars=r2.random() < 0.5))
-            yield {'kind': 'complete', 'mix': mix, 'profile': prof, 'optsets': rng.sample(OPTSETS, 3), 'no_color': rng.random() < 0.2,
+            rc = gen.case_rng(seed, ID, i, 'client')
+            role = 'server'
+            if rc.random() < 0.12:
+                # a client audit; in most of them the client's two directions differ in what they would be rated
+                role = 'client'
+                prof['keys'] = {}
+                if rc.random() < 0.7:
+                    for cat in rc.choice([['enc'], ['mac'], ['enc', 'mac']]):
+                        fails_, warns_, clean_ = cls[cat]
+                        pool = rc.choice([fails_, warns_, clean_]) or clean_ or fails_
+                        prof[cat + '_s2c'] = rc.sample(pool, min(len(pool), rc.randrange(1, 3)))
+            yield {'kind': 'complete', 'mix': mix, 'role': role, 'profile': prof, 'optsets': rng.sample(OPTSETS, 3), 'no_color': rng.random() < 0.2,
                    'net': gen.rand_net(rng), 'pseed': rng.getrandbits(32)}
         elif r < 0.85:
             arch = rng.choice(['ed25519', 'rsa', 'gex_strict', 'ssh1', 'client', 'dh14'])
@@ -174,7 +185,10 @@ def run_case(case, ctx):
         env = {'NO_COLOR': '1'} if case.get('no_color') else {}
 
         def plan(opts, net):
-            p = gen.server_plan(case['pseed'], list(opts) + ['--skip-rate-test', 'srv.example:2222'], prof, port=2222, net=net)
+            if case.get('role') == 'client':
+                p = gen.client_plan(case['pseed'], list(opts) + ['-c', '-p', '2222', '-t', '4'], prof, port=2222, net=net)
+            else:
+                p = gen.server_plan(case['pseed'], list(opts) + ['--skip-rate-test', 'srv.example:2222'], prof, port=2222, net=net)
             p['env'] = env
             return p
         ref = ctx.run(plan([], {'rtt_us': 200}))
@@ -194,6 +208,24 @@ def run_case(case, ctx):
             if r['status'] != want:
                 out.append(viol('C02 complete: status %s under %s but the full report folds to %s' % (r['status'], ' '.join(opts), want),
                                 'mix=%s lists=%r\nstdout tail:\n%s' % (case['mix'], {c: prof[c] for c in CATS}, r['stdout'][-700:])))
+            if any(o in ('-j', '-jj') for o in opts):
+                # the JSON document is a report too: its own failure / warning notes (names the database knows) fold to the same status
+                doc, _err = report.parse_json(r['stdout'])
+                if isinstance(doc, dict):
+                    lv, unknown = set(), False
+                    for c in CATS:
+                        for e in doc.get(c, []):
+                            key = e['algorithm']
+                            if c == 'kex' and key.startswith('gss-') and '-' in key[4:]:
+                                key = key[:key.rindex('-')] + '-*'
+                            if key not in gen.db()['ssh2'][c]:
+                                unknown = True
+                                continue
+                            lv.update(k for k in ('fail', 'warn') if e['notes'].get(k))
+                    jf = 3 if 'fail' in lv else (2 if ('warn' in lv or unknown) else 0)
+                    if r['status'] != jf and not (unknown and 'fail' not in lv and r['status'] == 2):
+                        out.append(viol('C02 complete: status %s under %s but the JSON report itself folds to %s' % (r['status'], ' '.join(opts), jf),
+                                        'role=%s lists=%r' % (case.get('role', 'server'), {c: prof.get(c) for c in list(CATS) + ['enc_s2c', 'mac_s2c']})))
         if len(tr.levels() & {'fail', 'warn', 'info'}) >= 2:
             sev = tuple(tuple(sorted({lv for lv, _ in e['notes']})) for c in CATS for e in tr.algs[c])
             keys.append(h('complete', sev, case['optsets']))
